@@ -32,7 +32,8 @@ type verifApp struct {
 	appMayReject   bool // FromApp may return a session-level or business reject
 	toAppMayRefuse bool // ToApp may return an error (ErrDoNotSend)
 	refusals       int
-	logonAsksReset bool // ToAdmin adds ResetSeqNumFlag=Y to an outgoing Logon (an application may decorate admin messages)
+	ids            []string // ClOrdID (11) of every message handed to FromApp, in order
+	logonAsksReset bool     // ToAdmin adds ResetSeqNumFlag=Y to an outgoing Logon (an application may decorate admin messages)
 }
 
 func (a *verifApp) OnCreate(SessionID) {}
@@ -74,6 +75,9 @@ func (a *verifApp) FromAdmin(m *Message, _ SessionID) MessageRejectError {
 }
 func (a *verifApp) FromApp(m *Message, _ SessionID) MessageRejectError {
 	a.fromApp = append(a.fromApp, a.record(m))
+	if id, err := m.Body.GetString(Tag(11)); err == nil {
+		a.ids = append(a.ids, id)
+	}
 	if !a.inLogon {
 		a.fromAppOutsideLogon++
 	}
